@@ -9,7 +9,8 @@ PROPS_FILE = 'Props/C12.v'
 RULE = ('operation sequences (add_to_tree, force_add_to_tree, graft with 5 metadata options, cut with 3) over forests of '
         'distinctly named nodes: exhaustive sequences of length<=2 (quick) / <=3 (thorough) over 2 roots + 3 nodes from several '
         'base shapes, plus random sequences of length 4..25 over 1..3 roots and 3..12 nodes (about 12% forbidden operations); '
-        'grafts onto own descendants excluded; non-trivial = distinct sequences containing at least one successful graft or cut')
+        'grafts onto own descendants excluded; every operation is issued under rotating spellings (the method, .tree(add= / graft= / cut=), '
+        '.tree(node), .tree(node, force=True)); non-trivial = distinct sequences containing at least one successful graft or cut')
 MODELLED = ['Python object identity is modelled by numeric ids; dict insertion order by list order']
 ASSUMPTIONS = ['node names are valid (no "/") and pairwise distinct, as the property quantifies']
 
